@@ -322,6 +322,24 @@ func checkReuse(c *buildCase, full *dhcpv4.DHCPv4) []clauseFail {
 	if got, want := maskedShow(second), maskedShow(first); got != want {
 		fs = append(fs, clauseFail{"modifiers-slice-reused", "second builder(ms...) with the same slice = " + got + " but the first = " + want})
 	}
+	// a Modifier is a value: applying it to one packet does not change what it does
+	// to the next (seeded change C15-8: a modifier compacting its captured argument
+	// slice in place).  The used modifiers go to OTHER builders, whose defaults
+	// differ, and must give what fresh copies of them give.
+	for _, alt := range []*buildCase{
+		{kind: "inform", hw: net.HardwareAddr{2, 0, 0, 0, 0, 9}, ip: net.IP{10, 1, 2, 3}},
+		{kind: "new"},
+		{kind: "discover", hw: net.HardwareAddr{2, 0, 0, 0, 0, 9}},
+	} {
+		if alt.kind == c.kind {
+			continue
+		}
+		alt.toks = c.toks
+		used, fresh := alt.call(ms), alt.call(alt.mods())
+		if got, want := maskedShow(used), maskedShow(fresh); got != want {
+			fs = append(fs, clauseFail{"modifier-value-changed", "modifiers already applied to a " + c.kind + " packet give " + alt.kind + " = " + got + ", fresh ones give " + want})
+		}
+	}
 	return fs
 }
 
